@@ -1,5 +1,9 @@
 use crate::runner::*;
 pub mod c01;
+pub mod c04;
+pub mod c05;
+pub mod c12;
+pub mod robust;
 
 pub fn run(id: &str, tier: &str, seed: u64) -> Option<i32> {
     macro_rules! go {
@@ -11,6 +15,9 @@ pub fn run(id: &str, tier: &str, seed: u64) -> Option<i32> {
     }
     match id {
         "C01" => go!("C01", "exploration", c01),
+        "C04" => go!("C04", "exploration", c04),
+        "C05" => go!("C05", "exploration", c05),
+        "C12" => go!("C12", "exploration", c12),
         _ => None,
     }
 }
@@ -18,6 +25,9 @@ pub fn run(id: &str, tier: &str, seed: u64) -> Option<i32> {
 pub fn replay(id: &str, case: &serde_json::Value) -> Option<CheckResult> {
     match id {
         "C01" => Some(c01::replay(case)),
+        "C04" => Some(c04::replay(case)),
+        "C05" => Some(c05::replay(case)),
+        "C12" => Some(c12::replay(case)),
         _ => None,
     }
 }
